@@ -130,6 +130,22 @@ def run(pid, tier, seed, replay=None):
         if pa is None:
             broken.append({"kind": "proof-obligation", "obligation": "Print Assumptions", "error": paout[-500:]})
 
+    # 2b. independent re-check of the compiled theorems (thorough tier only: minutes) ----------
+    chk_note = None
+    if okP and tier == "thorough" and os.environ.get("VERIF_NO_COQCHK") != "1":
+        obligations += 1
+        rc, out = vlib.sh(["coqchk", "-silent", "-o", "-Q", "theories", "Golem", "-Q", "gen", "GolemGen",
+                           "Golem.Properties." + pid], cwd=vlib.COQ, timeout=3600)
+        tail = out[-1500:]
+        if rc == 0:
+            discharged += 1
+            import re as _re
+            m = _re.search(r"\* Axioms:(.*?)(?:\n\s*\n|\* |$)", out, _re.S)
+            chk_note = "coqchk -o re-checked Properties/%s.vo and everything it depends on; axioms of the loaded libraries: %s" % (
+                pid, " ".join(m.group(1).split()) if m else "see log")
+        else:
+            broken.append({"kind": "proof-obligation", "obligation": "coqchk Golem.Properties." + pid, "error": tail})
+
     # 3. correspondence ------------------------------------------------------------
     cases = []
     harness_err = None
@@ -243,7 +259,7 @@ def run(pid, tier, seed, replay=None):
             pid, ("none (all %d theorems closed under the global context)" % pa["closed"] if pa and not pa["axioms"] else
                   (", ".join(pa["axioms"]) if pa else "unavailable: theorems did not build"))),
         "correspondence harness (Go, built from /repo's working tree with -tags verif) and the case writer of tools/runner",
-    ] + list(getattr(mod, "TRUSTED", []))
+    ] + list(getattr(mod, "TRUSTED", [])) + ([chk_note] if chk_note else [])
     coverage = {
         "obligations": obligations, "discharged": min(discharged, obligations),
         "checker_cmd": "make -C coq -j16 %s (coqc 8.16.1, full .vo) ; coqc work/%s/cases_*.v" % (" ".join(mod.TARGETS_PROP), pid),
